@@ -485,7 +485,8 @@ def _await_descriptor_upload(tor_protocol, onion, progress, await_all_uploads):
                         uploaded.callback(onion)
 
         elif subtype == 'FAILED':
-            if hostname_matches('{}.onion'.format(args[1])):
+            # (like UPLOADED: only for an upload we saw starting)
+            if args[3] in attempted_uploads and hostname_matches('{}.onion'.format(args[1])):
                 failed_uploads.add(args[3])
                 translate_progress(
                     "wait_descriptor",
